@@ -39,6 +39,7 @@ ImplF11 == [ImplDesigned EXCEPT !.emptyMutateWithGraphs = TRUE]
 ImplF14 == [ImplDesigned EXCEPT !.whiteReAddForgetsLost = TRUE]
 ImplF8  == [ImplDesigned EXCEPT !.refBeforeSpawnUnmarked = TRUE]
 ImplF17 == [ImplDesigned EXCEPT !.clientLinkedDespawn = TRUE]
+ImplF24 == [ImplDesigned EXCEPT !.mapOrphansPlaceholder = TRUE]
 
 vars == <<st, g, b, hist>>
 
